@@ -782,6 +782,9 @@ def install():
             m.np = NP
         if getattr(m, "sparse", None) is _sp:
             m.sparse = SPARSE
+        for nm in ("csr_matrix", "csc_matrix", "lil_matrix", "coo_matrix"):
+            if getattr(m, nm, None) is getattr(_sp, nm):
+                setattr(m, nm, getattr(SPARSE, nm))
         sla = getattr(m, "sla", None)
         if isinstance(sla, types.ModuleType) and sla.__name__ == "scipy.sparse.linalg":
             m.sla = SLA
